@@ -221,8 +221,8 @@ def run(ctx):
     lat = [r for r in p.records if r.get('_tag') == 'GEN']
     lat = [c for c in lat if not (c['model'] in ('CircularGaussianPRF', 'CircularGaussianPSF', 'CircularGaussianSigmaPRF', 'MoffatPSF', 'AiryDiskPSF') and c['theta'] != 0)]
     lat = [c for c in lat if not (c['model'] in ('CircularGaussianPRF', 'CircularGaussianPSF', 'CircularGaussianSigmaPRF') and c['shape'] != 1)]
-    recs = core.pmap(rec_analytic, list(enumerate(lat)), chunksize=8)
-    recs += core.pmap(rec_imagepsf, [10**7 + ctx.seed * 1000 + i for i in range(300 if q else 5000)], chunksize=32)
+    recs = core.pmap(rec_analytic, list(enumerate(lat)), chunksize=8, on_raise='drop')
+    recs += core.pmap(rec_imagepsf, [10**7 + ctx.seed * 1000 + i for i in range(300 if q else 5000)], chunksize=32, on_raise='drop')
     ver = core.validate_batch(ctx, 'Trace_PSFModels', recs, 'Trace:PSFModels')
     for r in recs:
         v = ver[r['id']]
